@@ -235,6 +235,10 @@ def post_cases(draw):
             "own_off": [draw(st.floats(-3.5, 3.5)) for _ in range(d)],    # unused by construction (kept for shrinking stability)
             "lo_w": [draw(st.sampled_from([3.0, 6.0, 12.0, 40.0, 100.0, draw(st.floats(0.3, 3))])) for _ in range(d)],
             "hi_w": [draw(st.sampled_from([3.0, 6.0, 12.0, 40.0, 100.0, draw(st.floats(0.3, 3))])) for _ in range(d)]}
+    # a whole-number conditioning point may be held in an integer array
+    case["int_point"] = draw(st.sampled_from([False, False, False, False, True]))
+    if case["int_point"]:
+        case["log_scales"] = [abs(v) * 0.75 + 0.3 for v in case["log_scales"]]     # widths >= 2 so that a whole number lies near the peak
     return case
 
 
@@ -294,6 +298,8 @@ def setup_problem(case):
     post, centre, width, correlated = build_post(case)
     d = case["d"]
     theta = centre + np.array(case["cond_off"]) * width
+    if case.get("int_point"):
+        theta = np.round(theta)
     bounds, cut = [], False
     info = []
     for i in range(d):
@@ -380,17 +386,22 @@ def check_conditionals(case, post, theta, bounds, info, axes, probs, ctx):
             raise Violation("conditional-coverage", f"{case['family']} parameter {i}: conditional exceeds e^-7.9 of its peak on [{big[0]!r}, {big[-1]!r}] but the grid spans [{x[0]!r}, {x[-1]!r}] (bounds {bounds[i]})")
 
 
+def point_arg(case, theta):
+    return theta.astype(np.int64) if case.get("int_point") else theta.copy()
+
+
 def body_conditionals(case, ctx):
     post, theta, bounds, info, correlated, cut = setup_problem(case)
     with warnings.catch_warnings():
         warnings.simplefilter("ignore")
         with np.errstate(all="ignore"):
-            axes, probs = get_conditionals(posterior=post, bounds=bounds, conditioning_point=theta.copy())
+            axes, probs = get_conditionals(posterior=post, bounds=bounds, conditioning_point=point_arg(case, theta))
     check_conditionals(case, post, theta, bounds, info, np.asarray(axes), np.asarray(probs), ctx)
     ctx.nontrivial((case["d"] >= 2 and correlated) or cut)
     ctx.event("family=" + case["family"])
     ctx.event(f"d={case['d']}")
     ctx.event("bound-cuts-conditional" if cut else "bounds-wide")
+    ctx.event("conditioning-point=" + ("int64" if case.get("int_point") else "float64"))
 
 
 def body_cond_sample(case, ctx):
@@ -399,9 +410,9 @@ def body_cond_sample(case, ctx):
     with warnings.catch_warnings():
         warnings.simplefilter("ignore")
         with np.errstate(all="ignore"):
-            axes, probs = get_conditionals(posterior=post, bounds=bounds, conditioning_point=theta.copy())
+            axes, probs = get_conditionals(posterior=post, bounds=bounds, conditioning_point=point_arg(case, theta))
             rngctl.reset(case["seed"])
-            samples = np.asarray(conditional_sample(posterior=post, bounds=bounds, conditioning_point=theta.copy(), n_samples=N))
+            samples = np.asarray(conditional_sample(posterior=post, bounds=bounds, conditioning_point=point_arg(case, theta), n_samples=N))
     d = case["d"]
     if samples.shape != (N, d):
         raise Violation("sample-shape", f"samples {samples.shape} for n_samples={N}, {d} parameters")
